@@ -48,6 +48,8 @@ def main():
         sh(["git", "-C", "/repo", "worktree", "add", "--detach", WT, "HEAD"])
     sh("git checkout -q --detach $(git -C /repo rev-parse HEAD) && git checkout -- . && git clean -fdq tests/ examples/", cwd=WT)
     tname = "demo_%s_%s" % (pid, mn)
+    if skip_demo:
+        return phase_b(res, pid, mn, patch, checks, tier)
     shutil.copy(demo, os.path.join(WT, "tests", tname + ".rs"))
     rc0, out0 = sh("cargo test --offline -j 8 --test %s 2>&1 | tail -15" % tname, cwd=WT)
     res["demo_without_patch_passes"] = ("test result: ok" in out0)
@@ -62,11 +64,24 @@ def main():
         res["suite"] = out2.strip()
         res["suite_passes_with_patch"] = ("691 passed" in out2) and ("FAIL" not in out2)
     sh("git checkout -- . && git clean -fdq tests/ examples/", cwd=WT)
+    return phase_b(res, pid, mn, patch, checks, tier)
+
+
+def phase_b(res, pid, mn, patch, checks, tier):
     # ---------------- phase B: the checks, against the scratch worktree with the patch applied
+    if "demo_without_patch_passes" not in res:
+        # re-check of an already confirmed change: merge into the previous result
+        try:
+            old = json.load(open("/tmp/mut/results/%s_%s.json" % (pid.upper(), mn)))
+            old.update(res)
+            res = old
+        except Exception:
+            pass
+    sh("git checkout -- . && git clean -fdq tests/ examples/", cwd=WT)
     sh(["git", "apply", patch], cwd=WT)
     HS, TG = WT + "_h", WT + "_target"
     sh("rsync -a --delete --exclude target /verif/harness/ %s/ && sed -i 's#path = \"/repo\"#path = \"%s\"#' %s/Cargo.toml && sed -i 's#target-dir = \"/verif/target\"#target-dir = \"%s\"#' %s/.cargo/config.toml" % (HS, WT, HS, TG, HS))
-    res["checks"] = {}
+    res.setdefault("checks", {})
     try:
         for c in checks:
             t0 = time.time()
